@@ -674,7 +674,7 @@ func gen(t *rapid.T) Case {
 		return Case{Entry: "multi-host", Allow: true, Hosts: hc}
 	}
 	if rapid.Bool().Draw(t, "allow") {
-		lay := fsgen.Generate(t, fsgen.Cfg{Absolute: rapid.Bool().Draw(t, "abs"), NoExtension: rapid.IntRange(0, 2).Draw(t, "noext") == 0, NullEntries: rapid.IntRange(0, 3).Draw(t, "nullentries") == 0, CallbackPathRefs: rapid.Bool().Draw(t, "cbpathrefs")})
+		lay := fsgen.Generate(t, fsgen.Cfg{Absolute: rapid.Bool().Draw(t, "abs"), NoExtension: rapid.IntRange(0, 2).Draw(t, "noext") == 0, NullEntries: rapid.IntRange(0, 3).Draw(t, "nullentries") == 0, CallbackPathRefs: rapid.Bool().Draw(t, "cbpathrefs"), PathChains: true})
 		c := Case{Layout: lay, Root: lay.Root, Entry: rapid.SampledFrom([]string{"datawithpath", "uri", "file"}).Draw(t, "entry"), Allow: true}
 		if rapid.IntRange(0, 3).Draw(t, "missingtarget") == 0 {
 			plantMissingTarget(t, &c)
